@@ -6,6 +6,7 @@
 //   sort    : cases "P K v0 v1 ..." -> sorts by key v/K (ties!) ; prints 1 if sorted permutation, else 0 and details
 //   pretest : cases "P n" -> sorted input of size n, comparator logs compared pairs; prints sorted list of (i) for pairs (i,i+1)
 #include "common.h"
+#include <memory>
 #include <mutex>
 #include <algorithm>
 #include <set>
@@ -16,6 +17,8 @@ template <class B> static void verif_offer(const B*, long, long) {}     // reduc
 #define __TBB_VERIF_REDUCE_OFFER(l, r) verif_offer((l).my_body, (r).my_range.begin(), (r).my_range.end())
 #include "oneapi/tbb/parallel_reduce.h"
 #include "oneapi/tbb/parallel_scan.h"
+#include "oneapi/tbb/task_group.h"
+#include "oneapi/tbb/task_arena.h"
 #include "oneapi/tbb/parallel_sort.h"
 #include "oneapi/tbb/blocked_range.h"
 #include "oneapi/tbb/global_control.h"
@@ -61,6 +64,12 @@ struct SBody {
     SBody(SBody& o, tbb::split) : finals(o.finals), okprefix(o.okprefix) {}
     template <class Tag> void operator()(const tbb::blocked_range<long>& r, Tag) {
         for (long i = r.begin(); i != r.end(); ++i) {
+            if (g_scan_nest() > 0 && i % g_scan_nest() == 0 && g_scan_helper()) {
+                // a nested wait inside the body: while waiting the thread runs other tasks of its arena — possibly the right sibling of this very task
+                tbb::task_group tg; std::atomic<bool> done{false};
+                g_scan_helper()->enqueue(tg.defer([&] { spin_a_bit(20000 + (unsigned long)(i % 7) * 30000); done = true; }));
+                tg.wait();
+            }
             if (Tag::is_final_scan()) {
                 (*finals)[i]++;
                 // the incoming prefix must be exactly lo..i-1 (pre-scan sums are contiguous runs: size + ends determine them)
@@ -74,6 +83,8 @@ struct SBody {
     void reverse_join(SBody& left) { std::vector<long> n = left.sum; n.insert(n.end(), sum.begin(), sum.end()); sum = n; }
     void assign(SBody& b) { sum = b.sum; }
     static long& g_scan_lo() { static long v = 0; return v; }
+    static long& g_scan_nest() { static long v = 0; return v; }
+    static tbb::task_arena*& g_scan_helper() { static tbb::task_arena* a = nullptr; return a; }
 };
 
 template <class Body>
@@ -140,13 +151,20 @@ int main(int argc, char** argv) {
             for (long x : res) o.put(x);
         } else if (m == "scan") {
             int part = (int)c[0], P = (int)c[1]; long lo = (long)c[2], hi = (long)c[3], g = (long)c[4]; g_spin = (long)c[5];
-            tbb::global_control gc(tbb::global_control::max_allowed_parallelism, P);
+            // with nested waits on another arena the worker pool must not be capped: a capped pool whose workers all wait for the helper arena starves it (by design)
+            std::unique_ptr<tbb::global_control> gc; if (!(c.size() > 6 && c[6] != 0)) gc.reset(new tbb::global_control(tbb::global_control::max_allowed_parallelism, P));
             std::vector<std::atomic<int>> finals(hi > 0 ? hi : 1), okp(hi > 0 ? hi : 1);
             for (auto& x : finals) x = 0; for (auto& x : okp) x = 1;
             SBody::g_scan_lo() = lo;
+            SBody::g_scan_nest() = c.size() > 6 ? (long)c[6] : 0;
+            tbb::task_arena helper(2, 0); SBody::g_scan_helper() = SBody::g_scan_nest() > 0 ? &helper : nullptr;
             SBody b(&finals, &okp);
-            if (part == 0) tbb::parallel_scan(tbb::blocked_range<long>(lo, hi, g), b, tbb::simple_partitioner());
-            else tbb::parallel_scan(tbb::blocked_range<long>(lo, hi, g), b, tbb::auto_partitioner());
+            tbb::task_arena main_arena(P > 1 ? P : 2);
+            main_arena.execute([&] {
+                if (part == 0) tbb::parallel_scan(tbb::blocked_range<long>(lo, hi, g), b, tbb::simple_partitioner());
+                else tbb::parallel_scan(tbb::blocked_range<long>(lo, hi, g), b, tbb::auto_partitioner());
+            });
+            SBody::g_scan_helper() = nullptr;
             long bad_count = 0, bad_prefix = 0;
             for (long i = lo; i < hi; ++i) { if (finals[i] != 1) bad_count++; if (!okp[i]) bad_prefix++; }
             bool res_ok = (long)b.sum.size() == (hi > lo ? hi - lo : 0);
